@@ -151,16 +151,22 @@ func tEq(a, b Term) Term {
 	return app(SBool, "=", a, b)
 }
 
+// elemSort: (Array K X) -> X
+func elemSort(arrSort string) string {
+	if ch, ok := sexprChildren(arrSort); ok && len(ch) == 3 && ch[0] == "Array" {
+		return ch[2]
+	}
+	return strings.TrimSuffix(strings.TrimPrefix(arrSort, "(Array Int "), ")")
+}
+
 func tSelect(arr, idx Term) Term {
+	elem := elemSort(arr.Sort)
 	// select(store(a, i, v), i) = v (syntactic)
 	if strings.HasPrefix(arr.S, "(store ") {
 		if ch, ok := sexprChildren(arr.S); ok && len(ch) == 4 && ch[2] == idx.S {
-			elem := strings.TrimSuffix(strings.TrimPrefix(arr.Sort, "(Array Int "), ")")
 			return Term{ch[3], elem}
 		}
 	}
-	// (Array Int X) -> X
-	elem := strings.TrimSuffix(strings.TrimPrefix(arr.Sort, "(Array Int "), ")")
 	return app(elem, "select", arr, idx)
 }
 
@@ -307,6 +313,24 @@ func splitGoal(g Term, limit int) []Term {
 			}
 			return out
 		}
+	case "forall":
+		// (forall (x) (A and B)) == (forall (x) A) and (forall (x) B); an equivalence of two formulas under
+		// the quantifier is split into its two directions (an existential on one side can then be skolemised)
+		if len(ch) == 3 && !strings.HasPrefix(ch[2], "(!") {
+			parts := splitGoal(Term{ch[2], SBool}, limit-1)
+			if len(parts) > 1 {
+				var out []Term
+				for _, p := range parts {
+					out = append(out, Term{"(forall " + ch[1] + " " + p.S + ")", SBool})
+				}
+				return out
+			}
+		}
+	case "=":
+		if len(ch) == 3 && (isFormula(ch[1]) || isFormula(ch[2])) && (strings.Contains(ch[1], "(exists ") || strings.Contains(ch[2], "(exists ")) {
+			a, b := Term{ch[1], SBool}, Term{ch[2], SBool}
+			return []Term{tImplies(a, b), tImplies(b, a)}
+		}
 	case "ite":
 		if len(ch) == 4 {
 			var out []Term
@@ -371,4 +395,14 @@ func mkForall(binders string, body Term) Term {
 		b = "(! " + b + " " + annot + ")"
 	}
 	return Term{"(forall (" + binders + ") " + b + ")", SBool}
+}
+
+// isFormula: the s-expression is certainly of sort Bool (it starts with a logical connective or a comparison).
+func isFormula(s string) bool {
+	for _, p := range []string{"(exists ", "(forall ", "(and ", "(or ", "(not ", "(=> ", "(<= ", "(< ", "(>= ", "(> ", "(= "} {
+		if strings.HasPrefix(s, p) {
+			return true
+		}
+	}
+	return s == "true" || s == "false"
 }
